@@ -112,7 +112,7 @@ def payload_rules(ctx, RULE):
 def run(ctx):
     P = ctx.P
     # ---------------- clause 1: PANIC over the receive glue ---------------------------------------------
-    ctx.rule('C06.1-no-panic', 'no indexing / slicing / arithmetic / unwrap in the receive path glue (receive_message, receive_message_from_read_half, decode_complete_fragment) can panic on a peer-supplied frame', floor=12)
+    ctx.rule('C06.1-no-panic', 'no indexing / slicing / arithmetic / unwrap in the receive path glue (receive_message, receive_message_from_read_half, decode_complete_fragment) can panic on a peer-supplied frame', floor=3)
     for p in (RECV, RECV2, DCF):
         B = ctx.body(p)
         if B is not None:
@@ -224,6 +224,11 @@ def run(ctx):
                     v = fold(B.origin(o))
                     if v is not None:
                         cmp_consts.add(v)
+        # a slice pattern (`[131, 69, ..] =>`) tests the same bytes with a switch on the byte instead of ==
+        for bb in sorted(B.live_blocks()):
+            t_ = B.blocks[bb]['t']
+            if t_['k'] == 'switch' and t_.get('dty') == 'u8':
+                cmp_consts |= {v for v, _ in t_['cases'] if isinstance(v, int)}
         need = {69: 'first fragment', 70: 'continuation', 112: 'pass-through', 68: 'distribution header'}
         for v, nm in need.items():
             if v in cmp_consts:
